@@ -44,7 +44,8 @@ import time
 
 VERIF = os.path.dirname(os.path.dirname(os.path.abspath(__file__)))
 REPO = os.environ.get("VERIF_REPO", "/repo")
-BUILD = os.path.join(VERIF, ".build")
+BUILD = os.environ.get("VERIF_BUILD", os.path.join(VERIF, ".build"))
+OUT = os.environ.get("VERIF_OUT", VERIF)
 KANI_DIR = os.environ.get("VERIF_KANI_DIR", os.path.join(VERIF, "kani"))  # override: development copy of the harness crate
 JOBS = int(os.environ.get("VERIF_JOBS", "16"))
 RSS_LIMIT_GB = float(os.environ.get("VERIF_KANI_RSS_GB", "12"))
@@ -550,7 +551,7 @@ def run(prop, tier, seed, known, log, only=None):
         tests = per.get(h["name"], [])
         repro_tests = [t for t in tests if _reproduces(h, t, dev)]
         shown = repro_tests or tests
-        replay_file = os.path.join(VERIF, "replays", prop, h["name"] + ".json")
+        replay_file = os.path.join(OUT, "replays", prop, h["name"] + ".json")
         d = {
             "property": prop, "engine": "kani", "harness": h["name"], "module": h["module"], "should_panic": h["should_panic"],
             "panics": h["panics"], "failed_checks": bad, "instantiation": h["inst"], "asserts": h["asserts"],
